@@ -452,8 +452,11 @@ class Ctx:
             "known_findings_reported": self.known_hits,
             "repo": str(self.repo),
         }
-        (VERIF / "evidence").mkdir(exist_ok=True)
-        (VERIF / "evidence" / f"{self.prop}.json").write_text(json.dumps(ev, indent=1, default=str))
+        # evidence/ only ever holds runs against /repo itself; development runs against
+        # another tree (VERIF_REPO=…) are written elsewhere so they cannot be committed
+        evdir = VERIF / "evidence" if str(self.repo) == "/repo" else Path(tempfile.gettempdir()) / "verif_dev_evidence"
+        evdir.mkdir(exist_ok=True)
+        (evdir / f"{self.prop}.json").write_text(json.dumps(ev, indent=1, default=str))
         self.cleanup()
         return 1 if self.violations else 0
 
